@@ -10,7 +10,7 @@ _T = ['C14_2', 'C14_2_rowdict_sound', 'C14_2_rowdict_complete', 'C14_2_iff', 'C1
       'C14_3', 'C14_3_exact', 'C14_3_pushed_stored', 'C14_3_nullable', 'C14_3_mentions_only', 'C14_3_on', 'C14_3_on_outer', 'C14_3_on_mentions_only',
       'C14_4_values_from_using', 'C14_4_last_wins', 'C14_4_unprefixed', 'C14_4_foreign_prefix', 'C14_4_own_prefix',
       'C14_4_partition_size_removed', 'C14_5_sound', 'C14_5_complete', 'C14_5_neutralised', 'C14_where_clauses',
-      'C14_1', 'C14_1_nodup', 'C14_1_plan', 'C14_1_apply_input', 'C14_1_predictor_first',
+      'C14_limit_plain_row', 'C14_limit_needs_use_limit', 'C14_1', 'C14_1_nodup', 'C14_1_plan', 'C14_1_apply_input', 'C14_1_predictor_first',
       'C14_partial', 'C14_5_swap', 'C14_rewrite_keeps_table', 'C14_witness_on_gt',
       'C14_target_stays']
 THEOREMS = ['MindsVerif.Props.C14.' + t for t in _T]
@@ -20,7 +20,9 @@ ASSUME = [
     'MindsVerif.ModelJoin; tie = correspondence of whole plans on generated join queries (this run)',
     'fragment of the correspondence: left-deep joins of 2-5 operands (the grammar has no parenthesised joins), sub-select '
     'operands and nested selects in WHERE with arbitrary own plans (opaque: only their number of steps enters the model), '
-    'no LIMIT/ORDER/GROUP (C08), no time-series models (C15), ASCII identifiers',
+    'select lists with aggregates as targets / nested in expressions, functions, CAST, CASE; DISTINCT, GROUP BY, HAVING, '
+    'ORDER BY, LIMIT, OFFSET (the LIMIT pushdown decision is modelled: check_use_limit, where_is_applied_before_join, ORDER BY '
+    'take-over, OFFSET move); no nested selects in the select list, no time-series models (C15), ASCII identifiers',
     'specification readings: the predicted column (to_predict) is an output, not an argument; semi-join filters '
     '`col IN :Result` derived from ON equalities are C08\'s subject and exempt from the "top-level conjunct" clause; '
     '"no longer filters the outer result" = the residual WHERE accepts every row the original accepted',
@@ -70,6 +72,8 @@ def run(chk):
             nops = len(r['ops'])
             dist['operands:%d' % nops] += 1
             dist['models:%d' % sum(1 for o in r['ops'] if o.kind == 'mod')] += 1
+            if r['info']['limit'] is not None:
+                dist['limit:' + ('aggregates' if r['aggregates'] else 'rows')] += 1
             if r['where'] is not None:
                 kinds = {a[0] + ':' + a[1] for _, anc in mj.sub_nodes(r['where']) for a in anc if a[0] in 'BU' and a[1] in ('or', 'not')}
                 dist['where:' + ('+'.join(sorted(kinds)) or 'conjunction')] += 1
